@@ -46,6 +46,8 @@ pub static mut NEED_NO_EVENTS: bool = false;
 pub static mut NEED_MEM_EQ: bool = false;
 /// number of live trampoline mappings that may be pending at the panic
 pub static mut NEED_LIVE: usize = usize::MAX;
+pub static mut NEED_FLUSHED_OFF: usize = 0;
+pub static mut NEED_FLUSHED_LEN: usize = 0;
 /// harness-specific justification of the panic (set by the harness *before* the call):
 /// the panic is legitimate only if this flag is true
 pub static mut JUSTIFIED: bool = true;
@@ -157,6 +159,24 @@ pub fn on_panic(kind: u32, _line: u32) {
             let i: usize = kani::any();
             kani::assume(i < libc::verif::ARENA);
             assert!(libc::verif::MEM[i] == SNAPSHOT[i], "OBL:panic.untouched: code memory must be untouched when the installation is refused");
+        }
+        if NEED_FLUSHED_LEN != 0 {
+            // for-all over the range by a nondeterministic index: the byte holds what it held at the most recent
+            // flush that covered it (a covering flush was requested after the last write to it)
+            let i: usize = kani::any();
+            kani::assume(i >= NEED_FLUSHED_OFF && i < NEED_FLUSHED_OFF + NEED_FLUSHED_LEN && i < libc::verif::ARENA);
+            let a = libc::verif::mem_base() + i;
+            let mut ok = false;
+            let mut k = 0;
+            while k < libc::verif::MAXFLUSH {
+                if k < libc::verif::N_FLUSH && libc::verif::FLUSH_START[k] <= a && a < libc::verif::FLUSH_END[k] {
+                    let d = a - libc::verif::FLUSH_START[k];
+                    ok = d < libc::verif::SNAP && libc::verif::FLUSH_SNAP[k][d] == libc::verif::MEM[i];
+                }
+                k += 1;
+            }
+            assert!(libc::verif::MEM[i] == SNAPSHOT[i], "OBL:C17.unwind.restored: when an older guard's restoration fails, the newer guards' functions have already been restored");
+            assert!(ok, "OBL:C17.unwind.flushed: every byte (re)written before a restoration fails is already covered by a flush issued after that write — control returns to the user by unwinding, and no later code can make up for a deferred flush");
         }
         if NEED_LIVE != usize::MAX {
             assert!(libc::verif::live_count() <= NEED_LIVE, "OBL:panic.no-pending-mapping: no rejected placement may be left mapped at the panic");
